@@ -9,6 +9,11 @@ import (
 )
 
 func match(doc, filter types.Value) (bool, error) {
+	return matchField(doc, true, filter)
+}
+
+// matchField evaluates filter on the value of a field; exists reports whether the field is present.
+func matchField(doc types.Value, exists bool, filter types.Value) (bool, error) {
 	f, ok := filter.(types.Map)
 	if !ok {
 		return types.Equal(doc, filter), nil
@@ -23,11 +28,12 @@ func match(doc, filter types.Value) (bool, error) {
 		if !strings.HasPrefix(key.String(), "$") {
 			// A field of a missing or non-map parent is absent.
 			var child types.Value
+			var has bool
 			if d, ok := doc.(types.Map); ok {
-				child = d.Get(key)
+				child, has = d.Get(key), d.Has(key)
 			}
 
-			ok, err := match(child, value)
+			ok, err := matchField(child, has, value)
 			if err != nil {
 				return false, err
 			}
@@ -39,10 +45,7 @@ func match(doc, filter types.Value) (bool, error) {
 
 		switch key.String() {
 		case "$exists":
-			if reflect.ValueOf(value).IsZero() {
-				return value == nil, nil
-			}
-			return value != nil, nil
+			return exists == (value != nil && !reflect.ValueOf(value).IsZero()), nil
 		case "$eq":
 			if !types.Equal(doc, value) {
 				return false, nil
@@ -73,7 +76,7 @@ func match(doc, filter types.Value) (bool, error) {
 				return false, errors.WithMessagef(ErrUnsupportedType, "value: %v", value.Interface())
 			}
 			for _, sub := range vals.Range() {
-				match, err := match(doc, sub)
+				match, err := matchField(doc, exists, sub)
 				if err != nil {
 					return false, err
 				}
@@ -87,7 +90,7 @@ func match(doc, filter types.Value) (bool, error) {
 				return false, errors.WithMessagef(ErrUnsupportedType, "value: %v", value.Interface())
 			}
 			for _, sub := range vals.Range() {
-				match, err := match(doc, sub)
+				match, err := matchField(doc, exists, sub)
 				if err != nil {
 					return false, err
 				}
